@@ -145,7 +145,8 @@ class Soap12(Soap11):
         nsmap = {'soap': self.ns_soap_env}
 
         code = self.generate_faultcode(element)
-        reason = element.find("soap:Reason/soap:Text", namespaces=nsmap).text.strip()
+        # white space is part of the message. (soap 1.1 doesn't strip either)
+        reason = element.find("soap:Reason/soap:Text", namespaces=nsmap).text
         role = element.find("soap:Role", namespaces=nsmap)
         node = element.find("soap:Node", namespaces=nsmap)
         detail = element.find("soap:Detail", namespaces=nsmap)
